@@ -5,6 +5,56 @@
 (* its token texts and what it must print when run (Expect).                  *)
 EXTENDS JsScopes, Json
 
+(* --------------------------------------------------------------- generator *)
+CONSTANTS Names,      \* sequence of names of the pool, e.g. <<"a","b">>
+          DeclF,      \* subset of {"var","let","const"}
+          DstrF,      \* subset of {"obj","objdef","objkey","arr"}
+          RefF,       \* subset of the ref forms
+          FnF,        \* subset of {"decl","iife","arrow"}
+          Defaults,   \* TRUE: parameters may have a default naming another pool name
+          NoParam,    \* TRUE: functions without parameter are generated too
+          Others,     \* subset of {"blk","catch","for"}
+          MaxItems, MaxDepth,
+          Impl        \* which model of the renamer the invariant judges
+
+VARIABLES p, st
+vars == <<p, st>>
+
+NameSet == {Names[x] : x \in 1..Len(Names)}
+
+Candidates ==
+     {Item("decl", f, n, "-", "-") : f \in DeclF, n \in NameSet}
+  \cup {Item("dstr", f, n, "-", "-") : f \in DstrF, n \in NameSet}
+  \cup {Item("ref", f, n, "-", "-") : f \in RefF, n \in NameSet}
+  \cup {Item("fn", f, n, "-", IF f = "decl" THEN g ELSE "-") : f \in FnF, n \in NameSet, g \in NameSet \cup {"f"}}
+  \cup (IF NoParam THEN {Item("fn", f, "-", "-", IF f = "decl" THEN g ELSE "-") : f \in FnF, g \in NameSet \cup {"f"}} ELSE {})
+  \cup (IF Defaults THEN {Item("fn", f, n, d, IF f = "decl" THEN "f" ELSE "-") : f \in FnF, n \in NameSet, d \in NameSet} ELSE {})
+  \cup {Item(k, "-", "-", "-", "-") : k \in Others \cap {"blk"}}
+  \cup {Item(k, "-", n, "-", "-") : k \in Others \cap {"catch", "for"}, n \in NameSet}
+
+TopKind == IF st = <<>> THEN "file" ELSE p[st[Len(st)]].k
+
+Init == p = <<>> /\ st = <<>>
+Add == \E it \in Candidates :
+         /\ (it.k = "fn" /\ it.d # "-") => it.d # it.n
+         /\ (it.k = "fn" /\ it.f = "decl") => TopKind \in {"file", "fn"}
+         /\ IF IsOpen(it) THEN Len(p) + Len(st) + 2 <= MaxItems /\ Len(st) < MaxDepth
+                          ELSE Len(p) + Len(st) + 1 <= MaxItems
+         /\ p' = Append(p, it)
+         /\ st' = IF IsOpen(it) THEN Append(st, Len(p) + 1) ELSE st
+         /\ NoRedecl(p')
+Close == /\ st # <<>>
+         /\ p' = Append(p, Item("close", "-", "-", "-", "-"))
+         /\ st' = SubSeq(st, 1, Len(st) - 1)
+Next == Add \/ Close
+Spec == Init /\ [][Next]_vars
+
+Complete == st = <<>> /\ Len(p) >= 1 /\ WFProg(p)
+
+(* the property, on the model of the renamer *)
+ModelKeeps == Complete => /\ Judge(p, ModelOut(p, Impl), TRUE) = {}
+                          /\ Judge(p, PlainOut(p), FALSE) = {}
+
 NamesA == <<"a">>
 NamesAB == <<"a", "b">>
 NamesABC == <<"a", "b", "c">>
